@@ -419,12 +419,45 @@ _LC_DO_RUN = lc._do_run  # noqa: SLF001
 
 
 def _cv_do_run(job):
-    """child process only: the observed run of layers_common with the observable list of this job (user's order)"""
+    """child process only: the observed run of layers_common with the observable list of this job (user's order).
+    With `check_steps` every `apply_single_qubit_gate` / `apply_two_qubit_gate` call of the real run is additionally compared
+    on the dense state with the embedded gate matrix (qiskit `Operator` of the one-gate circuit): the hypothesis
+    `Represents n (apply g) (denseSem … g)` of `column_values`, on the states and gates actually seen."""
     if "obs_order" in job:
         full = lc.observable_list(job["spec"]["n"])
         sel = [full[i] for i in job["obs_order"]]
         lc.observable_list = lambda n: sel      # the fork's private copy of the module
-    return _LC_DO_RUN(job)
+    steps = []
+    if job.get("check_steps"):
+        from qiskit.quantum_info import Operator
+
+        from mqt.yaqs.digital import digital_tjm as dt_mod
+
+        a1, a2 = dt_mod.apply_single_qubit_gate, dt_mod.apply_two_qubit_gate
+
+        def chk(before, state, node):
+            qc = lc.QuantumCircuit(state.length)
+            qc.append(node.op, [q._index for q in node.qargs])  # noqa: SLF001
+            want = np.asarray(Operator(qc).data) @ before
+            steps.append(float(np.max(np.abs(np.asarray(state.to_vec()) - want))))
+
+        def w1(state, node):
+            before = np.asarray(state.to_vec())
+            r = a1(state, node)
+            chk(before, state, node)
+            return r
+
+        def w2(state, node, sp):
+            before = np.asarray(state.to_vec())
+            r = a2(state, node, sp)
+            chk(before, state, node)
+            return r
+
+        dt_mod.apply_single_qubit_gate, dt_mod.apply_two_qubit_gate = w1, w2
+    out = _LC_DO_RUN(job)
+    if job.get("check_steps") and isinstance(out, dict):
+        out["step_devs"] = steps
+    return out
 
 
 def cv_run_many(jobs):
@@ -483,7 +516,7 @@ def cv_full_barrier(rng, n):
 
 def cv_jobs(inp):
     base = {"spec": inp["spec"], "obs_order": inp["obs_order"]}
-    return [dict(base, mode="ss"), dict(base, mode="ss", drop="all"), dict(base, mode="sp")]
+    return [dict(base, mode="ss", check_steps=True), dict(base, mode="ss", drop="all"), dict(base, mode="sp")]
 
 
 def cv_reference(spec, order, upto):
@@ -527,8 +560,20 @@ def oracle_cv_full(spec, order, res):
         bad = cv_compare(t[:, k], cv_reference(spec, order, upto), order, n, what)
         if bad:
             return bad
+    devs = res.get("step_devs") or []
+    ngates = sum(op["op"] in ("g1", "g2") for op in ops)
+    if len(devs) != ngates:
+        return {"ok": False, "detail": f"{len(devs)} gate applications observed for {ngates} gates"}
+    if devs:
+        CV["step_dev"] = max(CV.get("step_dev", 0.0), max(devs))
+        CV["steps"] = CV.get("steps", 0) + len(devs)
+        if not np.all(np.isfinite(devs)) or max(devs) > CV_TOL:
+            i = int(np.argmax(devs))
+            return {"ok": False, "detail": f"gate application #{i} of the run changes the dense state by something else than the "
+                                           f"embedded gate matrix (deviation {devs[i]:.3g}): the exactness hypothesis of column_values fails"}
     CV["circuits"] += 1
-    return {"ok": True, "detail": f"{t.shape[0]} objects x {t.shape[1]} columns equal the prefix-state expectation values"}
+    return {"ok": True, "detail": f"{t.shape[0]} objects x {t.shape[1]} columns equal the prefix-state expectation values; "
+                                  f"{len(devs)} gate applications exact on the dense state"}
 
 
 def oracle_cv_stripped(spec, order, full, stripped):
@@ -635,7 +680,8 @@ def spec_report():
              "tolerance": TOL},
             {"name": "column-values (extension xk16): every (object, column) entry vs prefix state vector (clean tree: < 1e-12)", "ok": True,
              "cv_worst_dev": CV["dev"], "entries_compared": CV["entries"], "columns_compared": CV["columns"],
-             "circuits_fully_compared": CV["circuits"], "tolerance": CV_TOL}]
+             "circuits_fully_compared": CV["circuits"], "tolerance": CV_TOL,
+             "hypothesis_Represents_gate_applications_checked": CV.get("steps", 0), "worst_step_dev": CV.get("step_dev", 0.0)}]
 
 
 if __name__ == "__main__":
